@@ -1201,10 +1201,15 @@ impl Operator for FilterOperator {
                 continue; // Skip entire chunk - zone map proves no matches
             }
 
-            // Apply predicate to create selection vector
+            // Apply predicate to create selection vector. Rows already deselected by an
+            // upstream filter must stay deselected, so refine the existing selection if any.
             let count = chunk.total_row_count();
-            let selection =
-                SelectionVector::from_predicate(count, |row| self.predicate.evaluate(&chunk, row));
+            let selection = match chunk.selection() {
+                Some(existing) => existing.filter(|row| self.predicate.evaluate(&chunk, row)),
+                None => SelectionVector::from_predicate(count, |row| {
+                    self.predicate.evaluate(&chunk, row)
+                }),
+            };
 
             // If nothing passes, skip to next chunk
             if selection.is_empty() {
